@@ -55,11 +55,25 @@ func Build(b Batch, norm NormFn, mode uint32) (seg segment.Segment, err error) {
 	return seg, err
 }
 
+// openCloseCh returns, as a pure function of the segment, either nil or a
+// close channel that is never closed: both are ordinary uses of WriteTo.
+func openCloseCh(seg segment.Segment) chan struct{} {
+	if seg.Count()%2 == 1 {
+		return make(chan struct{})
+	}
+	return nil
+}
+
 // Persist writes the segment and checks the returned byte count.
 func Persist(seg segment.Segment) (out []byte, err error) {
+	return PersistCh(seg, openCloseCh(seg))
+}
+
+// PersistCh is Persist with the given close channel (nil or never closed).
+func PersistCh(seg segment.Segment, closeCh chan struct{}) (out []byte, err error) {
 	err = safely("WriteTo", func() error {
 		var buf bytes.Buffer
-		n, e := seg.WriteTo(&buf, nil)
+		n, e := seg.WriteTo(&buf, closeCh)
 		if e != nil {
 			return e
 		}
@@ -117,7 +131,11 @@ func (c *Ctx) LoadFile(b []byte) (seg segment.Segment, err error) {
 func MergeBytes(segs []segment.Segment, drops []*roaring.Bitmap, mode uint32) (out []byte, maps [][]uint64, err error) {
 	err = safely("merge", func() error {
 		var buf bytes.Buffer
-		m, n, e := hookMerge(segs, drops, &buf, mode, nil)
+		var closeCh chan struct{}
+		if len(segs) > 0 {
+			closeCh = openCloseCh(segs[0])
+		}
+		m, n, e := hookMerge(segs, drops, &buf, mode, closeCh)
 		if e != nil {
 			return e
 		}
@@ -135,7 +153,11 @@ func PublicMerge(segs []segment.Segment, drops []*roaring.Bitmap, bufSize int) (
 	err = safely("Merge.WriteTo", func() error {
 		var buf bytes.Buffer
 		m := ice.Merge(segs, drops, bufSize)
-		n, e := m.WriteTo(&buf, nil)
+		var closeCh chan struct{}
+		if len(segs) > 0 {
+			closeCh = openCloseCh(segs[0])
+		}
+		n, e := m.WriteTo(&buf, closeCh)
 		if e != nil {
 			return e
 		}
